@@ -30,6 +30,8 @@ func vh08Corpus() [][]vhsOp {
 		// rename over an existing directory with fids below it, and over a file
 		cat(deep, o("mk", 0, 0, 0, 3), wk(0, 0, 8, 3), o("mk", 0, 0, 8, 0), wk(0, 8, 9, 0), o("renameat", 0, 0, 3, 1, 1), o("open", 0, 2, 0), o("open", 0, 9, 0),
 			wk(0, 1, 10, 1, 0), o("getattr", 0, 10), o("renameat", 0, 0, 0, 0, 0), o("renameat", 0, 1, 1, 0, 0)),
+		// Trename refused by the backend (ENOTEMPTY: the target is an ancestor of the source): the tree must stay as it was
+		cat(deep, o("rename", 0, 4, 0, 0), o("renameat", 0, 0, 0, 0, 1), o("rename", 0, 4, 0, 0), o("getattr", 0, 4)),
 		// refused renames: into itself / a descendant, over an ancestor of the source; non-existing source
 		cat(deep, o("renameat", 0, 0, 0, 2, 0), o("renameat", 0, 0, 0, 3, 3), o("renameat", 0, 3, 3, 0, 0), o("renameat", 0, 0, 3, 0, 2), o("rename", 0, 1, 3, 0)),
 		// clone of a fenced fid: stays fenced, takes and drops its parent reference
@@ -52,6 +54,7 @@ func TestVerifC08(t *testing.T) {
 		for _, wga := range []bool{true, false} {
 			out.Emit(vhsReplay("c08", ops, wga, nil, true, -1, 0, false))
 			out.Emit(vhsReplay("c08", ops, wga, nil, true, -1, 0, true))
+			out.Flush()
 		}
 	}
 	nhist := 100
@@ -68,6 +71,7 @@ func TestVerifC08(t *testing.T) {
 		ops := vhgHistory(r, n, "paths", wga, 2, 8, nname)
 		rec := vhsReplay("c08", ops, wga, nil, true, -1, 0, i%2 == 0)
 		out.Emit(rec)
+		out.Flush()
 		if i%6 == 0 {
 			// a backend failure somewhere: the tree must stay coherent
 			calls := 0
